@@ -247,9 +247,11 @@ func (engine *Engine) Finalized() thor.Bytes32 {
 
 // Justified returns the justified checkpoint.
 func (engine *Engine) Justified() (thor.Bytes32, error) {
-	head := engine.repo.BestBlockSummary().Header
-	verifJustifiedGap()
+	// load finalized BEFORE the best block: best always extends the finalized checkpoint published before it, while a
+	// finalized loaded after a stale best can be ahead of it ("headID precedes finalized")
 	finalized := engine.Finalized()
+	verifJustifiedGap()
+	head := engine.repo.BestBlockSummary().Header
 
 	// if head is in the first epoch and not concluded yet
 	if head.Number() < getCheckPoint(engine.forkConfig.FINALITY)+thor.EpochLength()-1 {
